@@ -13,10 +13,10 @@ CFG = dict(
     header=H + "From NV.C18 Require Import Model Run.\nOpen Scope N_scope.",
     kinds={"bfs": ("bfs_case", "check_bfs"), "wpath": ("wpath_case", "check_wpath"), "allp": ("allp_case", "check_allp"),
            "varp": ("varp_case", "check_varp"), "trav": ("trav_case", "check_trav"), "astar": ("astar_case", "check_astar"),
-           "algo": ("algo_case", "check_algo"), "allw": ("allw_case", "check_allw")},
+           "algo": ("algo_case", "check_algo"), "allw": ("allw_case", "check_allw"), "pat": ("varp_case", "check_pat")},
     known_classes={},
     shard=6,
-    rule="seeded random multigraphs of 1-24 nodes (all directed / all undirected / mixed; self-loops, parallel edges, forced disconnected parts, edge and node deletions; weights missing(default 1)/small/zero-heavy/all-equal/large(<2^40)/mixed, integer-valued so f64 sums are exact) built on the real GraphEngine; the current graph is what all_nodes/all_edges return; every start/end pair (plus a missing id) for find_path without filter, sampled pairs with random node/edge filters, all pairs for find_weighted_path, find_all_paths, find_variable_paths (hop bounds 0..4, direction, edge types, filters, cycles, max_paths), traverse from every node, astar_path (zero heuristic) in the three directions, and the algorithm library once per graph (k-core with .undirected() and with the default config); find_all_weighted_paths on every pair of ~70 small weighted graphs (3-7 nodes; heavy direct edges next to light detours, zero/equal weights, parallel edges) against reference minimum + brute-force enumeration of all simple minimum-weight paths; in addition 260 (thorough 6000) small structured graphs of 5-16 nodes for the algorithm library only (cliques with subdivided edges and pendant leaves/trees, cliques joined by paths, stars on cliques, two cores sharing a node, dense random) plus a fixed corpus (K4/K5 with subdivided edges and leaves, cliques joined by a path, K4 plus pendant), each checked for core numbers, degeneracy (both entry points), the cores grouping, kcore_subgraph(k) and shell(k) for every k against the k-core definition, triangles, SCC, components, MST, articulation points, bridges and blocks",
+    rule="seeded random multigraphs of 1-24 nodes (all directed / all undirected / mixed; self-loops, parallel edges, forced disconnected parts, edge and node deletions; weights missing(default 1)/small/zero-heavy/all-equal/large(<2^40)/mixed, integer-valued so f64 sums are exact) built on the real GraphEngine; the current graph is what all_nodes/all_edges return; every start/end pair (plus a missing id) for find_path without filter, sampled pairs with random node/edge filters, all pairs for find_weighted_path, find_all_paths, find_variable_paths (hop bounds 0..4, direction, edge types, filters, cycles, max_paths), traverse from every node, astar_path (zero heuristic) in the three directions, and the algorithm library once per graph (k-core with .undirected() and with the default config); variable-length PATTERN matching (match_pattern (n_from)-[p:*min..max, type, direction]->(n_to), every node carries a label n<id>) on the random multigraphs and on the weighted family against the same exact enumeration as find_variable_paths (order-insensitive, no path twice); astar_path with the zero heuristic and with an admissible consistent heuristic (half the true remaining distance, Floyd-Warshall in the harness) on the weighted family in all three directions; find_all_weighted_paths on every pair of ~70 small weighted graphs (3-7 nodes; heavy direct edges next to light detours, zero/equal weights, parallel edges) against reference minimum + brute-force enumeration of all simple minimum-weight paths; in addition 260 (thorough 6000) small structured graphs of 5-16 nodes for the algorithm library only (cliques with subdivided edges and pendant leaves/trees, cliques joined by paths, stars on cliques, two cores sharing a node, dense random) plus a fixed corpus (K4/K5 with subdivided edges and leaves, cliques joined by a path, K4 plus pendant), each checked for core numbers, degeneracy (both entry points), the cores grouping, kcore_subgraph(k) and shell(k) for every k against the k-core definition, triangles, SCC, components, MST, articulation points, bridges and blocks",
     trusted_base=COMMON_TB + [
         "modelled, not verified: the graph as a node list and an edge list in id order with adjacency lists derived the way create_edge/delete_edge maintain them (C05 proves that correspondence for the store-level model); get_edge lookups always succeed (consistent graph); weights as naturals (the harness uses integer-valued non-negative weights; negative-weight errors and f64 rounding are outside the model); HashMap/HashSet as association lists (only order-independent outputs are compared where the code iterates a hash container: traverse result sets, algorithm outputs canonicalised by sorting)",
         "algorithm library (SCC, connected components, MST, k-core, triangles, articulation points/bridges/biconnected components) and astar_path: executable textbook specifications in Run.v evaluated against the implementation's outputs (differential, no theorem about the implementations' algorithms); bridges/blocks are taken over the underlying simple graph (the API reports node pairs), triangles/k-core in the undirected reading",
@@ -28,5 +28,5 @@ CFG = dict(
 )
 MANIFEST = dict(
     text="find_path: for the BFS as the code does it (queue, visited set, parent map, early exit; neighbour rule regenerated from the source and re-proved per run) the returned walk is valid under the direction- and filter-respecting relation, has minimum hop count, PathNotFound <=> unreachable, fuel never runs out (Coq theorem, all graphs/filters/endpoints). Weighted, all-shortest, variable-length and traverse queries: executable models compared with the real engine plus independent oracles (valid walk respecting direction/filters, optimal by reference Bellman-Ford / level search, exact enumeration) on random multigraphs; theorems for the enumeration and Dijkstra as listed in coverage.theorems. Algorithm library and A*: textbook executable specifications run differentially (partial).",
-    note="Trusted: Coq kernel, rs2v.py for three decision expressions, harness + driver. Modelled not verified: adjacency lists derived from the edge list, naturals for weights, hash containers as lists. Fixed in /repo: find_all_weighted_paths hang/duplicates (23f86df7), find_path direction (e3bd2c2e), count_triangles (cea847ea), biconnected_components (ef6b3d5d), astar edge weight (c165ce5d).",
+    note="Trusted: Coq kernel, rs2v.py for three decision expressions, harness + driver. Modelled not verified: adjacency lists derived from the edge list, naturals for weights, hash containers as lists. Fixed in /repo: pattern neighbours dropped parallel incoming edges (ae942fcc), find_all_weighted_paths hang/duplicates (23f86df7), find_path direction (e3bd2c2e), count_triangles (cea847ea), biconnected_components (ef6b3d5d), astar edge weight (c165ce5d).",
 )
